@@ -140,6 +140,29 @@ Fixpoint valid_chain (t : table) (l : list hdr) : bool :=
     end
   end.
 
+(* The chain-level verifier used for every imported batch
+   (BlockChain.VerifyYouVersionState / VerifyYouVersionState2 in Go): the headers of
+   the batch are checked link by link, the first one against the canonical
+   header just below the batch; the result is the index of the first rejected
+   header, if any.  Whether an element is already known to the node plays no
+   role. *)
+Fixpoint verify_batch (t : table) (parent : hdr) (l : list hdr) : option N :=
+  match l with
+  | [] => None
+  | h :: r => if verdict_eqb (verify_vs t parent h) Ok
+              then option_map N.succ (verify_batch t h r)
+              else Some 0
+  end.
+
+Fixpoint consecutive (l : list hdr) : bool :=
+  match l with
+  | [] => true
+  | h :: r => match r with
+              | [] => true
+              | h' :: _ => N.eqb (num h') (num h + 1) && consecutive r
+              end
+  end.
+
 (* ---- correspondence runner --------------------------------------------- *)
 
 (* one case: table, prev, curr, observed verify verdict (0 ok / 1 invalid),
@@ -168,3 +191,21 @@ Fixpoint mismatches_from (i : N) (l : list case) : list N :=
   | c :: r => if case_ok c then mismatches_from (i + 1) r else i :: mismatches_from (i + 1) r
   end.
 Definition mismatches := mismatches_from 0.
+
+(* a batch case: table, the canonical header below the batch, the batch, and the
+   observed result of the chain-level verifier (None = accepted, Some i = index
+   of the rejected element) *)
+Record bcase := mkBCase {
+  b_tbl : table; b_parent : hdr; b_chain : list hdr; b_res : option N
+}.
+Definition bcase_ok (c : bcase) : bool :=
+  match verify_batch (b_tbl c) (b_parent c) (b_chain c), b_res c with
+  | None, None => true
+  | Some a, Some b => N.eqb a b
+  | _, _ => false
+  end.
+Fixpoint bmismatches_from (i : N) (l : list bcase) : list N :=
+  match l with
+  | [] => []
+  | c :: r => if bcase_ok c then bmismatches_from (i + 1) r else i :: bmismatches_from (i + 1) r
+  end.
